@@ -64,6 +64,9 @@ public class Num {
         }
         throw new RuntimeException("Num: not a rational value: " + v);
     }
+    static boolean isNan(Value v) {
+        return v instanceof StringValue && ((StringValue) v).getVal().toString().equals("nan");
+    }
     static Q fromDouble(double x) {
         if (Double.isNaN(x) || Double.isInfinite(x)) throw new ArithmeticException("Num: non-finite real " + x);
         BigDecimal b = new BigDecimal(x);           // exact
@@ -123,11 +126,13 @@ public class Num {
     }
     /** |a - b| <= atol + rtol * |b|, decided exactly */
     public static Value RClose(Value a, Value b, Value rtol, Value atol) {
+        if (isNan(a) || isNan(b)) return BoolValue.ValFalse;      // an observed not-a-number is close to nothing
         Q x = q(a), y = q(b);
         return bool(x.sub(y).abs().cmp(q(atol).add(q(rtol).mul(y.abs()))) <= 0);
     }
     /** symmetric variant: |a - b| <= atol + rtol * max(|a|, |b|) */
     public static Value RCloseSym(Value a, Value b, Value rtol, Value atol) {
+        if (isNan(a) || isNan(b)) return BoolValue.ValFalse;
         Q x = q(a), y = q(b);
         Q m = x.abs().cmp(y.abs()) >= 0 ? x.abs() : y.abs();
         return bool(x.sub(y).abs().cmp(q(atol).add(q(rtol).mul(m))) <= 0);
@@ -184,15 +189,16 @@ public class Num {
         if (a.length != b.length) return BoolValue.ValFalse;
         Q rt = q(rtol), at = q(atol);
         for (int i = 0; i < a.length; i++) {
+            if (isNan(a[i]) || isNan(b[i])) return BoolValue.ValFalse;
             Q x = q(a[i]), y = q(b[i]);
             if (x.sub(y).abs().cmp(at.add(rt.mul(y.abs()))) > 0) return BoolValue.ValFalse;
         }
         return BoolValue.ValTrue;
     }
-    /** max_i |s[i]| (0 for the empty sequence) */
+    /** max_i |s[i]| (0 for the empty sequence); not-a-number entries are passed over (RClose rejects them) */
     public static Value RMaxAbsSeq(Value s) {
         Q m = ZERO;
-        for (Value v : elems(s)) { Q x = q(v).abs(); if (x.cmp(m) > 0) m = x; }
+        for (Value v : elems(s)) { if (isNan(v)) continue; Q x = q(v).abs(); if (x.cmp(m) > 0) m = x; }
         return m.val();
     }
 
